@@ -87,6 +87,8 @@ def gen_definition(rng, fam):
             # a dict whose KEY is an expression: a string key (ks is never re-published, so it stays "k0"; keys that
             # evaluate to other hashable values are outside the model), or -- as a failing expression -- a list
             if rng.random() < fam["p_bad"] * 4:
+                if L.jinja and rng.random() < 0.5:
+                    return {"{{ (ctx().lst, 1) }}": 1}      # a tuple is hashable only if its members are
                 return {L.ctx("lst"): 1}
             return {L.ctx("ks"): token(t)}
         r = rng.random()
@@ -118,6 +120,9 @@ def gen_definition(rng, fam):
             # conditions whose value is not a boolean: truthiness decides ([] / "" / 0 / null are false)
             return rng.choice([L.ctx("lst"), L.e("result()"), L.ctx("x"), L.ctx("n"), L.e("ctx().get('z')"),
                                L.ctx("dv")])
+        if r < 0.955 and fam.get("p_pub_dict"):
+            # sensitive to what has been merged into the dict variable so far
+            return L.e("len(ctx().dv) > 1", "ctx().dv | length > 1")
         if r < 0.985:
             # a filter pipeline: its value is a (possibly empty) sequence, truthiness decides
             return rng.choice([L.e("ctx().lst.where($ > 5)", "ctx().lst | select('gt', 5)"),
@@ -356,7 +361,8 @@ def run_history(sess, rng, fam, oracle, max_steps=None):
                 if fam.get("lifecycle"):
                     # a plausible action lifecycle: running -> pausing -> paused -> resuming -> running, running -> canceling
                     last = sess.last_reported.get(key) or "running"
-                    nxt = {"running": ["paused"], "paused": ["resuming"], "resuming": ["running"]}.get(last, ["running"])
+                    nxt = {"running": ["paused", "pending"], "paused": ["resuming"], "resuming": ["running"],
+                           "pending": ["pending"]}.get(last, ["running"])
                     stt = rng.choice(nxt)
                     # a dormant action is not woken up once the workflow is being canceled or has ended
                     if stt == "resuming" and st in ("canceling", "canceled", "failed", "succeeded"):
